@@ -429,6 +429,10 @@ class Balancer:
         new_lhs = truism.args[0].args[0]
         old_rhs = truism.args[1]
         other_adds = truism.args[0].args[1:]
+        if not all(a.concrete for a in other_adds):
+            # x - y OP d does not imply x OP d + y when y is multi-valued: d + y wraps around for some values of y and
+            # not for others, so a bound taken from the extreme of d + y cuts off solutions (x - y < 1 holds for x = y = 15)
+            return truism
         new_rhs = BV("__add__", (old_rhs, *other_adds), length=len(truism.args[0]))
         return Bool(truism.op, (new_lhs, new_rhs))
 
